@@ -19,7 +19,7 @@ extern "C" void __tsan_release(void* addr);
 
 namespace sim {
 
-static const char* kOpNames[O_NKINDS] = {"load", "utc", "fixed", "local", "default", "take", "eq", "query", "set_state", "bulk"};
+static const char* kOpNames[O_NKINDS] = {"load", "utc", "fixed", "local", "default", "take", "eq", "query", "set_state", "bulk", "setenv"};
 
 // ------------------------------------------------------------------ JSON
 static J op_to_json(const Op& o) {
@@ -34,6 +34,7 @@ static J op_to_json(const Op& o) {
     case O_QUERY: { j.set("slot", o.slot); J q = query_to_json(o.q); for (auto& kv : q.o) j.set(kv.first, kv.second); break; }
     case O_SET_STATE: j.set("z", o.z); j.set("state", o.s); break;
     case O_BULK: j.set("count", o.a); j.set("repeat", o.slot2); j.set("state", o.s); break;
+    case O_SETENV: j.set("state", o.s); break;
     default: break;
   }
   if (o.adv) j.set("adv", o.adv);
@@ -105,6 +106,7 @@ J conc_to_json(const ConcCase& c) {
   k.set("nslots", c.nslots);
   k.set("step_cap", c.sched.step_cap);
   if (c.sched.exit_at_step >= 0) k.set("exit_at_step", c.sched.exit_at_step);
+  if (c.sched.store_buffer) { k.set("store_buffer", true); k.set("sb_ttl_max", c.sched.sb_ttl_max); }
   j.set("knobs", k);
   J s = J::arr();
   for (int v : c.sched.schedule) s.push(v);
@@ -143,6 +145,7 @@ bool conc_from_json(const J& j, ConcCase* c) {
   c->sched.disabled_kinds = static_cast<uint32_t>(k.geti("disabled_kinds"));
   c->sched.step_cap = static_cast<int>(k.geti("step_cap", 200000));
   c->sched.exit_at_step = static_cast<int>(k.geti("exit_at_step", -1));
+  c->sched.store_buffer = k.getb("store_buffer"); c->sched.sb_ttl_max = static_cast<int>(k.geti("sb_ttl_max", 32));
   c->factory_yields = static_cast<int>(k.geti("factory_yields", 1));
   c->factory_reenters = static_cast<int>(k.geti("factory_reenters", 0));
   c->nslots = static_cast<int>(k.geti("nslots", 4));
@@ -428,6 +431,14 @@ ConcCase gen_conc(const std::string& property, const std::string& tier, uint64_t
     else if (p < 110) o.adv = static_cast<int64_t>(wl.pick(std::vector<int64_t>{3600, 86400, 2 * 86400, 40 * 86400, 400 * 86400}));
     else if (p < 118) o.skew = wl.pick(std::vector<int64_t>{-400LL * 86400, -3600, -1, 1, 3650LL * 86400});
   }
+  // ... and the environment changes under its feet: TZDIR (irrelevant with a user-supplied factory), LANG, HOME.
+  if (wl.chance(0.08)) {
+    for (auto& ops : c.tasks) if (!ops.empty() && wl.chance(0.5)) {
+      Op o; o.k = O_SETENV;
+      o.s = wl.pick(std::vector<std::string>{"TZDIR=/sim/elsewhere", "TZDIR=/usr/share/zoneinfo", "TZDIR=", "TZDIR", "LANG=tr_TR.ISO-8859-9", "HOME=/nonexistent", "TZDIR=/sim/zi"});
+      ops.insert(ops.begin() + static_cast<long>(wl.below(ops.size() + 1)), o);
+    }
+  }
   // Re-entrant factories: the factory itself calls into cctz (formats a timestamp, asks for a fixed zone, loads another
   // name, asks for the local zone) - ordinary user code.  The contract must hold for the outer and the nested
   // invocations alike.  A tree whose load lock is not recursive deadlocks on the nested load; no listed property
@@ -464,6 +475,10 @@ static void gen_sched_knobs(Rng* scp, ConcCase* cp) {
   for (int kind : {Y_OP, Y_READ, Y_SKIP, Y_SRC_DTOR, Y_FACTORY_MID, Y_FACTORY_OUT, Y_ATOMIC_LD, Y_ATOMIC_ST, Y_UNLOCK})
     if (sc.chance(0.15)) c.sched.disabled_kinds |= (1u << kind);
   c.factory_yields = static_cast<int>(sc.below(4));
+  // Half of the runs let stores weaker than seq_cst sit in a per-thread store buffer for a while (effective on the
+  // TSan build, where atomics are intercepted).
+  c.sched.store_buffer = sc.chance(0.5);
+  c.sched.sb_ttl_max = sc.pick(std::vector<int>{2, 8, 32, 128, 512});
 }
 
 ConcCase template_conc(const std::string& property, int k, int nnames, bool factory_yields) {
@@ -739,6 +754,14 @@ struct Exec {
             }
           }
         }
+        break;
+      }
+      case O_SETENV: {
+        // The process changes a part of its environment that has no bearing on a program with its own data source.
+        HarnessScope hs;
+        size_t eq = o.s.find('=');
+        if (eq == std::string::npos) env.vars.erase(o.s); else env.vars[o.s.substr(0, eq)] = o.s.substr(eq + 1);
+        ev("setenv " + o.s);
         break;
       }
       case O_SET_STATE: {
@@ -1035,6 +1058,7 @@ Outcome exec_conc(const ConcCase& c, bool keep_log, Stats* stats) {
     stats->add("contended_lock_waits", sr.contended_locks);
     if (sr.cond_waits) stats->add("cond_waits", sr.cond_waits);
     { int64_t secs = 0; for (const auto& ops : c.tasks) for (const Op& o : ops) secs += o.adv; if (secs) stats->add("sim_seconds", secs); }
+    if (sr.sb_buffered) { stats->add("probe.stores_delayed_in_store_buffer", sr.sb_buffered); stats->add("probe.loads_served_from_own_store_buffer", sr.sb_forwarded); }
     if (c.factory_reenters) stats->add("probe.factory_reentered_the_library");
     if (c.sched.exit_at_step >= 0) { stats->add("probe.simulated_exit_while_tasks_run"); if (sr.exit_handlers_run) stats->add("probe.library_static_destructors_run_at_exit", sr.exit_handlers_run); }
     if (library_exit_handlers_registered()) stats->add("probe.library_static_destructors_pending", library_exit_handlers_registered());
